@@ -22,6 +22,110 @@ PROPS = {
                         'bits-and-blooms/bitset Set/Test and Redis SETBIT/GETBIT implement a bit array'],
         'trusted': [],
     },
+
+    'C02': {
+        'lean_modules': ['C02'],
+        'required_theorems': ['C02_no_false_negative', 'C02_insert_ok_stored', 'C02_insert_preserves_lookup', 'C02_alt_involutive_pow2',
+                              'C02_alt_not_involutive_npow2', 'C02_no_kick_any_n_partial', 'C02_npow2_kick_loses_element'],
+        'suites': ['cuckoo'],
+        'level': 'proof',
+        'explanation': 'Key-bag refinement proved in Lean for both bucket kinds (in-memory slot array, Redis list): under an involutive alternate-bucket map '
+                       '(proved for power-of-two bucket counts) a successful insert adds one copy to the element\'s bucket pair, relocations keep every fingerprint inside its pair, '
+                       'so every element inserted more often than removed is found, for every eviction choice; for other bucket counts the statement is refuted in Lean (finding D2) and only the no-relocation part is proved. '
+                       'Suite `cuckoo` (exact mode) replays every observed Insert/Remove/Lookup of both backends through the model with the mirrored random choices.',
+        'assumptions': ['element fingerprints are valid: fingerprint length <= number of decimal digits of the element hash (finding D3 otherwise)',
+                        'histories without failed destructive inserts for the no-false-negative theorem (a failed destructive insert may displace one entry by design, C14)',
+                        'math/rand stream reproduced by rand.Seed for the correspondence check'],
+    },
+    'C03': {
+        'lean_modules': ['C03'],
+        'required_theorems': ['C03_lower', 'C03_upper', 'C03_exact_single', 'C03_empty_zero', 'C03_concrete'],
+        'suites': ['cms'],
+        'level': 'proof',
+        'explanation': 'Lean theorems over the matrix model for an arbitrary in-range position function and every update history (cell invariant: each cell is the sum of the counts hashed to it); '
+                       'suite `cms` checks every observed Update/UpdateOnce/UpdateString/Count of both backends against the model (abstract mode) and getPositions against its transcription.',
+        'assumptions': ['no counter overflow: stream total < 2^64 (in-memory uint64) resp. < 2^53 (Lua numbers)',
+                        'Redis sketches narrower than gopher-lua\'s unpack limit (finding D24 otherwise)'],
+    },
+    'C04': {
+        'lean_modules': ['C04'],
+        'required_theorems': ['C04_size', 'C04_nodup', 'C04_count_bounds', 'C04_unreported_light', 'C04_exact_without_collisions',
+                              'C04_values_sorted', 'C04_mem_refines_spec', 'C04_redis_refines_spec'],
+        'suites': ['topk'],
+        'level': 'proof',
+        'explanation': 'Lean: nondeterministic Top-K specification (any tie resolution) with size/no-duplicate/count-bound/unreported-light/exactness theorems for every history whose estimates satisfy the Count-Min bounds; '
+                       'container/heap (up/down/Push/Pop/Remove) and the sorted-set variant are proved to refine it. Suite `topk` replays every observed Insert (sketch update, estimate, heap transition) and Values of both backends through the model.',
+        'assumptions': ['estimates satisfy the Count-Min bounds of C03 (EstOK); counts >= 1; scores < 2^53 in Redis',
+                        'element names valid UTF-8 without protocol separators in the correspondence suite'],
+    },
+    'C05': {
+        'lean_modules': ['C05'],
+        'required_theorems': ['C05_update_ok_iff', 'C05_registers_confined', 'C05_index_range'],
+        'suites': ['hllacc', 'hll'],
+        'level': 'proof',
+        'explanation': 'The accuracy clause is FALSE of the pinned code (finding D4: the register index is the rank and the stored value is hash bits); what is proved is the exact characterisation of what the code computes '
+                       '(which registers can ever be written, when an update fails) and the refutation; suites `hllacc`/`hll` tie registers and the float estimator to the model on every run, so any change of the estimator or the register rule is detected as a correspondence break; '
+                       'the accuracy oracle itself reports the known finding.',
+        'assumptions': ['IEEE-754 evaluation of the estimator is the same in Go and Lean Float (checked by the correspondence on every run)',
+                        'statistical accuracy of a concrete hash function is not provable; tested only'],
+    },
+    'C06': {
+        'lean_modules': ['C06'],
+        'required_theorems': ['C06_perm', 'C06_dup', 'C06_depends_only_on_set', 'C06_merge_union_fresh', 'C06_merge_comm', 'C06_merge_idem',
+                              'C06_merge_then_update', 'C06_merge_mismatch'],
+        'suites': ['hll'],
+        'level': 'proof',
+        'explanation': 'Lean theorems for an arbitrary (register, value) function: updates commute and are idempotent, so registers (hence Count and Export) depend only on the set of elements; merge = pointwise max = union, commutative, idempotent; mismatch is an error. '
+                       'Suite `hll` replays every observed Update/Count/Merge of both backends through the model.',
+        'assumptions': ['elements whose rank is < m (for m <= 64 other elements make Update fail: finding D4, reported under C05)'],
+    },
+    'C11': {
+        'lean_modules': ['C11'],
+        'required_theorems': ['C11_roundtrip_bloom', 'C11_roundtrip_cms', 'C11_roundtrip_hll', 'C11_roundtrip_cuckoo', 'C11_roundtrip_topk',
+                              'C11_count_bloom', 'C11_count_cms', 'C11_count_hll', 'C11_count_cuckoo', 'C11_count_topk', 'C11_concat'],
+        'suites': ['persist'],
+        'level': 'proof',
+        'explanation': 'Lean: byte-exact encoders/decoders of the five binary formats; decode(encode s ++ rest) = (s, rest) for every well-formed image, reported byte counts = encoded length, back-to-back streams. '
+                       'Suite `persist` compares WriteTo output byte for byte with the model encoder, ReadFrom results with the model decoder (also on truncated input), and checks counts/consumption/equality/queries on the implementation.',
+        'assumptions': ['all header fields < 2^64; float parameters travel as bit patterns', 'bits-and-blooms/bitset WriteTo/ReadFrom format as transcribed (tie-checked)'],
+    },
+    'C12': {
+        'lean_modules': ['C12'],
+        'required_theorems': ['C12_merge_union', 'C12_merge_comm', 'C12_merge_assoc', 'C12_merge_then_update', 'C12_counts_after_merge', 'C12_mismatch'],
+        'suites': ['cms'],
+        'level': 'proof',
+        'explanation': 'Lean: merge of two sketches of equal dimensions is the sketch of the concatenated history (all counts equal), commutative/associative, later updates behave as on the single sketch, mismatch is an error. '
+                       'Suite `cms` replays observed merges of both backends through the model and checks argument-unchanged, merge orders, updates after merge, mismatches.',
+        'assumptions': ['no counter overflow (as C03)'],
+    },
+    'C13': {
+        'lean_modules': ['C13'],
+        'required_theorems': ['C13_wf_preserved', 'C13_length_exact', 'C13_capacity', 'C13_remove_present', 'C13_remove_absent', 'C13_empty_after_all_removed'],
+        'suites': ['cuckoo'],
+        'level': 'proof',
+        'explanation': 'Lean (any bucket count, both bucket kinds, every eviction choice): well-formedness is preserved by every operation, Length = stored entries = successful inserts - successful removes, no bucket exceeds its capacity, '
+                       'remove of a present element removes exactly one copy, remove of an absent one changes nothing, an emptied filter answers false everywhere. Suite `cuckoo` as for C02.',
+        'assumptions': ['valid fingerprints (finding D3 otherwise)', 'for non-power-of-two bucket counts a live element can become unfindable (finding D2), so "remove of a live element returns true" is only guaranteed with an involutive alternate bucket'],
+    },
+    'C14': {
+        'lean_modules': ['C14'],
+        'required_theorems': ['C14_rollback_exact', 'C14_failure_signalled', 'C14_success_means_stored', 'C14_destructive_bound'],
+        'suites': ['cuckoo'],
+        'level': 'proof',
+        'explanation': 'Lean: a failed non-destructive insert returns EXACTLY the initial state (no hypotheses); success only by storing into a bucket with room; a failed destructive insert keeps Length and the number of stored entries and changes the stored multiset by +new -one. '
+                       'Suite `cuckoo` drives small filters to saturation with retries 1..500 and replays every failed insert through the model.',
+        'assumptions': ['the panic value "cannot insert element, cuckoofilter is full" is the failure signal'],
+    },
+    'C18': {
+        'lean_modules': ['C18', 'C11'],
+        'required_theorems': ['C18_truncated_bloom', 'C18_truncated_cms', 'C18_truncated_hll', 'C18_truncated_cuckoo', 'C18_truncated_topk'],
+        'suites': ['persist'],
+        'level': 'proof',
+        'explanation': 'Lean: a decoder written in the read-n-bytes monad that consumes a whole image rejects every strict prefix (generic theorem), instantiated for the five formats via the C11 round trip. '
+                       'Suite `persist` feeds EVERY strict prefix of each sampled binary image and JSON document to ReadFrom/Import (must error, not panic, not succeed) and compares the decoders on truncated input with the model; '
+                       'the regenerated decoder table checks that every fallible read has its error returned before the receiver is assigned.',
+        'assumptions': ['encoding/json rejects every strict prefix of a marshalled object (standard library, exhaustively tested per sampled document)'],
+    },
 }
 
 # properties not (yet) claimed: reason shown in MANIFEST.not_applicable
